@@ -1148,6 +1148,32 @@ def s_collect(I_, st, path, c, args, t, depth):
         it = ("iter", "seq", (tuple(items), 0))
     dty = t.get("dty", "") if isinstance(t, dict) else ""
     out = []
+    h0 = ty_head(dty)
+    if h0 in ("std::result::Result", "core::result::Result", "std::option::Option", "core::option::Option"):
+        # collecting into Result / Option pulls element by element and stops at the first Err / None (later elements are never produced)
+        good, bad = ("Ok", "Err") if "Result" in h0 else ("Some", "None")
+        res, work, fine = [], [(st, it, [])], True
+        while work and fine:
+            s, i, acc = work.pop()
+            if len(acc) > 64:
+                fine = False
+                break
+            for (s2, i2, x) in iter_next(I_, s, i, depth):
+                if x is None:
+                    res.append((s2, adt(RESULT if good == "Ok" else OPTION, good, (("seq", tuple(acc)),))))
+                    continue
+                if x[0] == "splice":
+                    fine = False
+                    break
+                for (s3, v) in I_.fork_variants(s2, x, h0 + "<T>"):
+                    if v[0] == "adt" and v[2] == good:
+                        work.append((s3, i2, acc + [I_.field(v, 0)]))
+                    elif v[0] == "adt" and v[2] == bad:
+                        res.append((s3, v if bad == "None" else adt(RESULT, "Err", (I_.field(v, 0),))))
+                    else:
+                        fine = False
+        if fine:
+            return res
     for (s2, items) in drain(I_, st, it, depth):
         v = ("seq", tuple(items))
         h = ty_head(dty)
@@ -1615,6 +1641,32 @@ def s_slice_get(I_, st, path, c, args, t, depth):
     return out
 
 
+def s_find_map(I_, st, path, c, args, t, depth):
+    """Iterator::find_map over a fully known sequence: the first Some the closure returns"""
+    it = _as_iter(I_, st, args[0])
+    if it is None:
+        return None
+    items = iter_drain_static(it)
+    if items is None or any(x[0] == "splice" for x in items) or len(items) > 8:
+        return None
+    out = []
+    work = [(st, 0)]
+    while work:
+        s, i = work.pop()
+        if i == len(items):
+            out.append((s, NONE))
+            continue
+        for (s2, r) in I_.call_value(s, args[1], [items[i]], t, None, depth):
+            for (s3, v) in I_.fork_variants(s2, r, "std::option::Option<T>"):
+                if v[0] == "adt" and v[2] == "Some":
+                    out.append((s3, v))
+                elif v[0] == "adt" and v[2] == "None":
+                    work.append((s3, i + 1))
+                else:
+                    return None
+    return out
+
+
 SUMMARIES = [(re.compile(rx), h) for rx, h in [
     (r"^(std|alloc)::vec::Vec::<T>::new$|^(std|alloc)::vec::Vec::<T>::with_capacity$", s_vec_new),
     (r"^(std|alloc)::vec::Vec::<T, A>::push$|^(std|alloc)::string::String::push_str$|^(std|alloc)::string::String::push$", s_vec_push),
@@ -1639,6 +1691,7 @@ SUMMARIES = [(re.compile(rx), h) for rx, h in [
     (r"cmp::Ordering::(is_lt)$", s_ordering_is("is_lt")), (r"cmp::Ordering::(is_le)$", s_ordering_is("is_le")), (r"cmp::Ordering::(is_gt)$", s_ordering_is("is_gt")),
     (r"cmp::Ordering::(is_ge)$", s_ordering_is("is_ge")), (r"cmp::Ordering::(is_eq)$", s_ordering_is("is_eq")), (r"cmp::Ordering::(is_ne)$", s_ordering_is("is_ne")),
     (r"Iterator>::find$|Iterator::find$", s_find),
+    (r"Iterator>::find_map$|Iterator::find_map$", s_find_map),
     (r"result::Result::<T, E>::and_then$|option::Option::<T>::and_then$", s_variant_map("and_then")),
     (r"option::Option(::<T>)?::Some$|^std::prelude::v\d::Some$", s_ctor("Some")), (r"result::Result(::<T, E>)?::Ok$|^std::prelude::v\d::Ok$", s_ctor("Ok")),
     (r"result::Result(::<T, E>)?::Err$|^std::prelude::v\d::Err$", s_ctor("Err")),
